@@ -26,7 +26,7 @@ from ..grammar import mps as GM
 PID = 'C12'
 GRID = [0.2, 0.4, 0.6, 1.0]
 RULE = ('(P) PIT programs (single / stacked Conv1d with k in {2,3,4,5}, residual, concat, depthwise, twice, 2D conv, BN) x mask-value lattice ' + str(GRID) +
-        '^n (complete for n <= 6 quick / 7 thorough, one-element deviations from uniform beyond) x specs {params, params_no_bias, ops, ops_no_bias, gap8 (2D)} x '
+        '^n (complete for n <= 5 quick / 7 thorough, one-element deviations from uniform beyond) x specs {params, params_no_bias, ops, ops_no_bias, gap8 (2D)} x '
         '{continuous, discrete}; every +1-step edge of the lattice is checked for monotonicity and gradient; (S) SuperNets x coefficient grid x T; (M) MPS per-layer / '
         'per-channel x coefficient grid x T x {params_bit, ops_bit, mpic_latency, ne16_latency (8-bit activations)}; (O) ODiMO default; '
         'non-trivial = a state with at least one mask value below 1.0 / a non-uniform coefficient vector')
@@ -36,7 +36,7 @@ ASSUMPTIONS = ['mask values are positive grid values off the abs() kink and off 
 
 
 def bounds(tier):
-    return {'quick': {'complete_upto_elements': 6}, 'thorough': {'complete_upto_elements': 7}}[tier]
+    return {'quick': {'complete_upto_elements': 5}, 'thorough': {'complete_upto_elements': 7}}[tier]
 
 
 PIT_PROGS = [
